@@ -130,9 +130,13 @@ Definition tadd := tadd_gen true.
 Definition tscale (c : R) (t : ttree) : ttree :=
   match t with TNode l pd d T cs => TNode l pd d (fun ks ph p => c * T ks ph p) cs end.
 
-(* TTNS.add with prefactors: factor1, factor2 = self.coeff, other.coeff are folded into the root tensor
-   (new[indices1] = factor1 * node1.tensor; new[indices2] += factor2 * node2.tensor), the sum has coeff 1 *)
+(* TTNS.add with prefactors (coeff).  A state is (coeff, tree).  Equal prefactors (python `self.coeff != other.coeff`
+   false): the sum keeps the common prefactor and the tensors are not scaled.  Different prefactors: factor1, factor2 =
+   self.coeff, other.coeff are folded into the root tensor (new[indices1] = factor1 * node1.tensor;
+   new[indices2] += factor2 * node2.tensor) and the sum has coeff 1.  [ceq] is the equality test of the prefactors. *)
 Definition tadd_coeff (ca cb : R) (a b : ttree) : ttree := tadd (tscale ca a) (tscale cb b).
+Definition tadd_state (ceq : R -> R -> bool) (ca cb : R) (a b : ttree) : R * ttree :=
+  if ceq ca cb then (ca, tadd a b) else (1, tadd_coeff ca cb a b).
 
 (* ------------------------------------------------------------------ tree operators, TTNO.apply *)
 (* operator node tensor: child bonds, up (output) physical indices, down (input) physical indices, parent *)
